@@ -150,6 +150,24 @@ def _resolve_on_path(f, op, path, depth=0):
     return f.canon_op(op)
 
 
+def _project_agg(f, cp, path, depth=0):
+    """`(agg as V).i` -> the operand the aggregate was built from (an escape
+    that travelled inside another enum, `LoopStep::Exit(escape)`)."""
+    while depth < 6 and cp and cp[0][0] == "agg" and len(cp) >= 2:
+        stt = f.stmts(cp[0][1])[cp[0][2]]
+        kd, aops = stt[2][1], stt[2][2]
+        rest = list(cp[1:])
+        if rest and rest[0][0] == "d":
+            if rest[0][1] != kd.get("variant"):
+                return cp
+            rest = rest[1:]
+        if not rest or rest[0][0] != "f" or rest[0][1] >= len(aops):
+            return cp
+        cp = _resolve_on_path(f, aops[rest[0][1]], path, depth + 1) + tuple(rest[1:])
+        depth += 1
+    return cp
+
+
 def outcomes(f, use, start, loop, variant=None):
     """Set of outcome labels for control entering `start`."""
     hdr, body = loop if loop else (None, None)
@@ -160,7 +178,7 @@ def outcomes(f, use, start, loop, variant=None):
         if mir.is_place_operand(o) and mir.op_place(o)[0] in use.aliases \
                 and not mir.op_place(o)[1]:
             return "return-same"
-        cp = _resolve_on_path(f, o, path)
+        cp = _project_agg(f, _resolve_on_path(f, o, path), path)
         if cp[0][0] == "agg":
             stt = f.stmts(cp[0][1])[cp[0][2]]
             kd = stt[2][1]
@@ -271,6 +289,10 @@ def fmt(tab):
     return {k: sorted(v) for k, v in tab.items()}
 
 
+def _no_helpers(call):
+    return False
+
+
 def rule_R07(ctx):
     prog = ctx.prog
     r1 = RuleResult("R07.1", "no escape value is dropped un-inspected",
@@ -294,7 +316,9 @@ def rule_R07(ctx):
     if not r2.require_floor("statement evaluator (switch on a Stmt parameter)", len(ses), 1):
         return [r1, r2, r3, r4, r5]
     se, se_path = ses[0]
-    se_vf = mir.VariantFlow(se, [(se_path, STMT)])
+    import inline
+    sev = inline.view(prog, se, pick=_no_helpers, classifiers=True)
+    se_vf = mir.VariantFlow(sev, [(se_path, STMT)])
 
     def arms(bb):
         return {t[0] for t in se_vf.at(bb)}
@@ -314,23 +338,32 @@ def rule_R07(ctx):
     seq_fns = {c.fn.root_fn().path for c in prog.callers_of(se.path) if c.fn.in_any_loop(c.bb)}
 
     def ctx_arms(f, bb):
-        if f is se:
+        if f is sev:
             return arms(bb)
         return helper_ctx.get(f.root_fn().path, set())
     n_sources = 0
     call_boundaries = 0
     prog_boundaries = 0
     seq_tables = 0
-    for f in prog.hand_fns():
-        if f.from_expansion or not any(t == ESC or is_esc_carrier(t) for t in f.locals):
+    import inline
+    for f0 in prog.hand_fns():
+        if f0.from_expansion or not any(t == ESC or is_esc_carrier(t) for t in f0.locals):
             continue
+        if inline.is_classifier(f0) and prog.callers_of(f0.path):
+            # `loop_step(Escape) -> LoopStep`: its decision is part of each
+            # caller's table (inlined below), not a boundary of its own
+            r1.inst("%s: classifier, analysed inside its callers" % f0.path)
+            continue
+        f = inline.view(prog, f0, pick=_no_helpers, classifiers=True)
+        if f0 is se:
+            f = sev
         for (root, origin) in escape_sources(f):
             n_sources += 1
             u = EscapeUse(f, root, origin)
             where = "%s: escape from %s" % (f.path, origin)
             if not u.switches and not u.forwards and not u.passed:
                 r1.inst(where + " -> DROPPED")
-                ctxs = sorted(arms(se.defs()[root][0][0])) if f is se and se.defs().get(root) else []
+                ctxs = sorted(arms(sev.defs()[root][0][0])) if f is sev and sev.defs().get(root) else []
                 r1.fail("%s | escape-dropped from=%s arms=%s" % (f.path, origin.split(" ")[-1], ",".join(ctxs)),
                         "%s obtains an escape (%s) and drops it without "
                         "looking at it: a break/continue/return raised "
@@ -343,7 +376,7 @@ def rule_R07(ctx):
                 # forwarded: must be returned as is
                 fw_ok = any(kd.get("adt") == "std::result::Result" and kd["variant"] == "Ok"
                             for (_, _, kd) in u.forwards) or u.passed
-                if f is se or f.root_fn().path in helper_ctx:
+                if f is sev or f.root_fn().path in helper_ctx:
                     a = set()
                     for (bb, _, _) in u.forwards:
                         a |= ctx_arms(f, bb)
@@ -365,7 +398,7 @@ def rule_R07(ctx):
                 tab, loop = table_of(f, u, sbb)
                 desc = "%s: table %s" % (f.path, fmt(tab))
                 flat = {k: v for k, v in tab.items()}
-                if f is se or f.root_fn().path in helper_ctx:
+                if f is sev or f.root_fn().path in helper_ctx:
                     a = ctx_arms(f, sbb)
                     if a and a <= {"While", "For"}:
                         r2.inst(desc + " [%s]" % ",".join(sorted(a)))
